@@ -18,6 +18,6 @@ Extraction "model.ml"
   KvProto.delete_historic KvProto.trace_history KvProto.raw_diff
   SqlSession.sconn0 SqlSession.sql_create SqlSession.sql_refresh SqlSession.sql_insert SqlSession.sql_update SqlSession.sql_delete
   SqlSession.sql_begin SqlSession.sql_commit SqlSession.sql_rollback SqlSession.sql_select SqlSession.sql_version SqlSession.sql_vacuum
-  SqlSession.sql_set_write_time SqlSession.finish_rollback SqlSession.find_rows
+  SqlSession.sql_set_write_time SqlSession.finish_rollback SqlSession.find_rows SqlSession.sql_set_deadline SqlSession.sql_changes
   SpecMerge.interp Stmt.kv_vacuum
   Inst.cfg_plain Inst.cfg_rows Inst.obj_eqb_plain Inst.obj_eqb_rows Inst.run_plain Inst.run_rows.
